@@ -44,7 +44,7 @@ def selftest():
 def plan(tier, seed):
     ws = spec_writers.all_writers()
     cases = []
-    nrep = 2 if tier == "quick" else 12
+    nrep = 2 if tier == "quick" else 40
     for wname in ("molden_vendor", "molekel_vendor"):
         for klass in ws[wname].CLASSES:
             for rep in range(nrep):
@@ -56,7 +56,7 @@ def plan(tier, seed):
             for rep in range(nrep):
                 cases.append({"kind": "standard", "writer": wname, "klass": klass, "rep": rep, "seed": seed})
     for wname in ("molden", "molekel", "molden_vendor"):
-        for rep in range(6 if tier == "quick" else 80):
+        for rep in range(6 if tier == "quick" else 300):
             cases.append({"kind": "corrupt", "writer": wname, "rep": rep, "seed": seed})
     return cases
 
